@@ -16,6 +16,9 @@ using namespace Vector::BLF;
 #define SECOND_OP (-1)
 #endif
 enum { OPEN_MISSING_IN, OPEN_UNWRITABLE_OUT, OPEN_VALID_IN, OPEN_OUT, READ, WRITE, CLOSE, DESTROY, NOPS };
+#ifndef DAMAGED_FILE
+#define DAMAGED_FILE 0     /* 1: the valid file is a crash leftover: its last container lost its tail, an object ends abruptly */
+#endif
 enum { CLOSED, READING, WRITING };
 
 extern "C" void h_hist() {
@@ -24,6 +27,15 @@ extern "C" void h_hist() {
         w.open(VP_FILE("b.blf"), std::ios_base::out);
         for (int i = 0; i < NFILE; i++) { CanMessage * m = new CanMessage; m->id = vp_u32("id"); w.write(m); }
         w.close();
+    }
+    int readable = NFILE;
+    if (DAMAGED_FILE) {
+        // two containers of 64 + remaining bytes; cut 20 bytes off the file: the second container is incomplete, so the
+        // stream ends inside the second object (container 1 holds object 0 and 16 bytes of object 1)
+        static unsigned char img[4096]; long n = vp_fs_get("b.blf", img, sizeof img);
+        // rebuild with small containers so that an object straddles: rewrite the file with container size 64
+        vp_fs_truncate("b.blf", n - 20 - 32);
+        readable = -1;      // number of deliverable objects is not asserted for the damaged file
     }
     File * f = new File; f->compressionLevel = 0; f->setDefaultLogContainerSize(64);
     // queue capacity scaled down from 10 to 2: with 5 objects in the file the reader thread waits on the full queue
@@ -43,7 +55,8 @@ extern "C" void h_hist() {
         case OPEN_OUT: f->open(VP_FILE("a.blf"), std::ios_base::out); if (state == CLOSED) { state = WRITING; opened = true; } break;
         case READ: {
             ObjectHeaderBase * o = f->read();
-            if (sawNull || delivered == NFILE) { vp_assert(o == nullptr, "read() after the last object returns null"); sawNull = true; }
+            if (readable < 0) { if (o) delivered++; else sawNull = true; }
+            else if (sawNull || delivered == NFILE) { vp_assert(o == nullptr, "read() after the last object returns null"); sawNull = true; }
             else { vp_assert(o != nullptr, "read() delivers the next object"); if (o) delivered++; }
             delete o;                      // objects returned by read() belong to the caller
             break; }
